@@ -328,7 +328,7 @@ class Generator:
 
         def fresh():
             return {"ret": None, "spec": [], "loops": {}, "inserts": [], "attr": [], "members": [], "drops": [], "body": None,
-                    "closures": [], "flags": [], "preloops": {}, "postloops": {}, "loopbodies": {}, "substs": []}
+                    "closures": [], "flags": [], "preloops": {}, "postloops": {}, "loopbodies": {}, "substs": [], "atend": []}
 
         opts = fresh()
         main_opts = opts
@@ -360,6 +360,9 @@ class Generator:
                 opts["postloops"][int(words[1])] = payload
             elif words[0] == "loopbody":
                 opts["loopbodies"][int(words[1])] = payload
+            elif words[0] == "atend":
+                # ghost text placed in front of the closing brace of the fn body (only sound for bodies whose value is `()`)
+                opts["atend"] = payload
             elif words[0] == "insert":
                 m = re.match(r"insert\s+(before|after_stmt|after)\s+(\d+)\s+`(.*)`\s*$", h)
                 if not m:
@@ -1001,6 +1004,9 @@ class Generator:
             edits.append((kw + 1, inn + 1, " %s in verif_it_%d: " % (pat, n)))
             edits.insert(0, (opn + 1, opn + 1, derefs + " "))  # before any ghost text placed at the start of the body
             unit.insertions.append("T11b loop %d: reference pattern in the binder replaced by a binding + `let x = *r;`; ghost iterator binder verif_it_%d" % (n, n))
+        if opts.get("atend"):
+            edits.append((bc, bc, " " + "\n".join(opts["atend"]).strip("\n") + "\n"))
+            unit.insertions.append("end of body: ghost proof block")
         # anchored insertions
         body_text_start = toks[bo].start
         body_text = src.text[body_text_start : toks[bc].end]
